@@ -496,6 +496,15 @@ def exercise(t, rd, rng, n_random, stats):
             t.calls.append({"why": why, "npos": npos, "kws": kws, "ctx": ctx is not None, "template": text, "obs": obs})
             key = obs[0] if obs[0] != "bind" else "bind:" + obs[1][0]
             stats["obs"][key] = stats["obs"].get(key, 0) + 1
+            # the same call written twice in one template (side by side, and once inside a context of the other): what one
+            # occurrence may do must not depend on the other occurrences of the tag in the same text
+            if obs[0] == "accept" and kws and getattr(t, "_twice", 0) < 4 and text is not None and "|" not in text:
+                t._twice = getattr(t, "_twice", 0) + 1
+                for text2 in (text + "_" + text, text + "-x-" + text + "_" + text):
+                    obs2 = t.compile(text2)
+                    t.calls.append({"why": why + " (written twice in one template)", "npos": npos, "kws": kws, "ctx": ctx is not None,
+                                    "template": text2, "obs": obs2})
+                    stats["obs"]["twice:" + obs2[0]] = stats["obs"].get("twice:" + obs2[0], 0) + 1
 
 
 def oracle_call(chk, t, rd, c):
@@ -509,6 +518,9 @@ def oracle_call(chk, t, rd, c):
         return
     if o == "lookup":
         chk.oracle_fail("the tag shown by --help cannot be used in a template (%s)" % c["obs"][1], case)
+        return
+    if "(written twice in one template)" in c["why"] and o != "accept":
+        chk.oracle_fail("a call that is accepted when written once is rejected when the same tag occurs twice in the template: %r" % (c["obs"],), case)
         return
     doc_bind = documented(rd, c["npos"], c["kws"])
     doc_ctx = rd["ctx"] is None or rd["ctx"] == c["ctx"]
